@@ -1,5 +1,6 @@
 """C10 - malformed client input gets a client error, never gqlgen's own panic path."""
 import json
+import os
 from collections import Counter
 from lib import vf
 
@@ -42,12 +43,16 @@ def run(ctx):
         "the closing-delimiter rule of mime/multipart under a read error (contentReadable) is modelled from observation and validated by sweeping MaxUploadSize over every byte offset of a body",
         "the websocket protocol state machine is C11's; here only the envelope decode of subscribe/start payloads is modelled, every other frame is checked against the Spec (no recover-hook call, well-formed frames, close or answer)",
     ]
-    ok_extract = ctx.extract("AddUploadGuards", "DecodeSites")
-    proved = bool(ok_extract) and ctx.prove(props=["GqlgenVerif.Props.C10"])
+    ctx.assumptions += [
+        "gorilla/websocket refuses a close frame whose payload exceeds 125 bytes (status code included) and a gorilla client fails a connection whose close reason is not UTF-8: modelled (`WsClose.frame`), tied on every run by the `cf` rows (a bare gorilla server writing reasons of 0..200 bytes)",
+        "operation ids reach wsConnection as valid UTF-8 (encoding/json substitutes U+FFFD): hypothesis of `protocol_close_well_formed`; the harness also sends invalid bytes in ids",
+    ]
+    ok_extract = ctx.extract("AddUploadGuards", "DecodeSites", "WsCloseReasons")
+    proved = bool(ok_extract) and ctx.prove(props=["GqlgenVerif.Props.C10", "GqlgenVerif.Props.C10Close"])
     if ok_extract and not proved:
         ctx.cov["proof_failure"] = ctx.proof_failure
 
-    rc, so, se = ctx.harness("c10", ["-tier", ctx.tier, "-seed", ctx.seed])
+    rc, so, se = ctx.harness("c10", ["-tier", ctx.tier, "-seed", ctx.seed, "-corpus", os.path.join(vf.VERIF, "corpus", "C10")])
     if rc != 0:
         raise RuntimeError("harness failed: " + se[-2000:])
     rows = [l.split("\t") for l in so.split("\n") if l]
@@ -62,6 +67,19 @@ def run(ctx):
         except Exception as ex:  # the regenerated Gen files no longer fit the model
             ctx.cov["driver_failure"] = str(ex)[-1500:]
             model = None
+
+    # the Spec of a protocol close (`WsClose.specOk`) evaluated in Lean on what the implementation sent
+    wl_spec = {}
+    if model is not None:
+        wl_rows = [i for i, r in enumerate(rows) if r[0] == "wl" and r[1].split(" ")[1] in ("dup", "dupq")]
+        def obs_of(r):
+            c = r[3]
+            return c[6:] if c.startswith("close:") and c != "close:1006" else "dropped"
+        try:
+            outl = ctx.driver("c10", ["wlspec %s %s %s" % (rows[i][1].split(" ")[2], obs_of(rows[i]), rows[i][4]) for i in wl_rows])
+            wl_spec = dict(zip(wl_rows, outl))
+        except Exception as ex:
+            ctx.cov["driver_failure"] = str(ex)[-1500:]
 
     spec_fail = []   # (row, reason)  -- concrete failing inputs
     div = []         # (row, model line, reason) -- correspondence divergences
@@ -194,6 +212,70 @@ def run(ctx):
                 elif m != "exec":
                     div.append((r, m, "ws"))
 
+        elif k == "wl":
+            pc, frames, closed, reason, rec, pan, desc = r[1:8]
+            proto, scen, hs = pc.split(" ")
+            sid = bytes.fromhex(hs) if hs != "-" else b""
+            nontriv.add(pc)
+            fl = [] if frames == "-" else frames.split(",")
+            why = []
+            if rec != "0":
+                why.append("recover hook called %s time(s): %s" % (rec, unhex(pan)))
+            if "BAD" in fl:
+                why.append("server sent a frame that is not a JSON object with a type")
+            for f in fl:
+                if ":" in f:
+                    fid = f.split(":", 1)[1].split("=")[0]
+                    if fid not in (hs, "7a7a", "6531"):
+                        why.append("a frame carries an operation id the client never used: " + f[:80])
+            if scen in ("dup", "dupq"):
+                full = b"Subscriber for " + sid + b" already exists"
+                lcls = "fits" if len(full) <= 123 else "cut"
+                if closed == "bad-close-utf8":
+                    why.append("the close frame's reason is not valid UTF-8 (the client library fails the connection instead of reporting the protocol close)")
+                elif closed in ("close:1006", "eof"):
+                    why.append("the connection was dropped without a close frame (client sees 1006) instead of the protocol close 4409: the %d-byte reason %s the 123 bytes a close frame can carry" % (len(full), "fits" if lcls == "fits" else "has to be cut to"))
+                elif not closed.startswith("close:"):
+                    why.append("no protocol close after a second operation under an active id: " + closed)
+                else:
+                    rb = bytes.fromhex(reason) if reason != "-" else b""
+                    # independent of the Lean Spec: code, UTF-8, prefix, whole text when it fits
+                    okpy = closed == "close:4409" and full.startswith(rb) and (len(full) > 123 or rb == full)
+                    try:
+                        rb.decode("utf-8")
+                    except UnicodeDecodeError:
+                        okpy = False
+                    if wl_spec.get(i, "ok") != "ok" or not okpy:
+                        why.append("the protocol close does not meet the Spec (code 4409, reason valid UTF-8, a prefix of the full text, the whole text when it fits): %s reason %r" % (closed, rb[:140]))
+                branch["wl:%s:%s:%s:%s" % (proto, scen, lcls, closed)] += 1
+                if m is not None:
+                    mf = m.split(" ")
+                    obs = closed if closed not in ("close:1006", "eof") else "dropped"
+                    if obs == "bad-close-utf8":
+                        if not (mf[0].startswith("close:") and mf[-1] == "spec=FAIL"):
+                            div.append((r, m, "wl"))
+                    elif mf[0] != obs or (obs.startswith("close:") and mf[1] != reason):
+                        div.append((r, m, "wl: close frame"))
+                    elif mf[-1] == "spec=ok" and proto == "graphql-ws" and ("connection_error=" + reason) not in fl:
+                        div.append((r, m, "wl: graphql-ws sends a connection_error frame with the reason before the close"))
+            else:
+                branch["wl:%s:%s:%s" % (proto, scen, closed)] += 1
+                if closed in ("timeout", "eof", "close:1006", "dial-error", "bad-frame", "bad-close-utf8"):
+                    why.append("no answer and no protocol close (%s) for a client string of %d bytes" % (closed, len(sid)))
+                elif scen != "type" and closed != "open":
+                    why.append("a well-formed %s with a client string of %d bytes was not served: %s" % (scen, len(sid), closed))
+                if scen in ("once", "stop") and ("complete:" + hs if hs != "-" else "complete") not in fl:  # an empty id is omitted (omitempty)
+                    why.append("the operation's completion does not carry the id the client chose")
+                if m is not None and m != "any":
+                    div.append((r, m, "wl"))
+            for w in why:
+                spec_fail.append((r, w))
+        elif k == "cf":
+            branch["cf:" + r[2]] += 1
+            obs = "dropped" if r[2] in ("close:1006", "eof") else r[2] + " " + r[3]
+            if m is not None and m != obs:
+                div.append((r, m, "cf: gorilla/websocket does not treat a close reason of this length as modelled (125-byte control frame rule)"))
+
     # ---- decide
     def describe(r):
         k = r[0]
@@ -213,6 +295,21 @@ def run(ctx):
                     "input": {"transport": r[1].split(" ")[0], "body_hex": r[8], "body": unhex(r[8])[:200]},
                     "observed": {"status": r[2], "class": r[3], "recovers": r[5], "tmp_after": r[6], "panic": unhex(r[7])},
                     "replay": "transport %s body %r -> status %s class %s recovers %s" % (r[1].split(" ")[0], unhex(r[8])[:200], r[2], r[3], r[5])}
+        if k == "wl":
+            proto, scen, hs = r[1].split(" ")
+            sid = bytes.fromhex(hs) if hs != "-" else b""
+            steps = {"dup": "connection_init; subscribe id=S to a subscription that stays active; subscribe id=S again",
+                     "dupq": "connection_init; subscribe id=S to a subscription that stays active; a query under id=S",
+                     "once": "connection_init; query under id=S; sentinel query", "stop": "connection_init; subscription id=S; stop id=S; query under id=S; sentinel",
+                     "errq": "connection_init; query { S } (unknown field); sentinel", "ping": "connection_init; ping with payload {k:S}; sentinel",
+                     "type": "connection_init; message of type S; sentinel"}[scen]
+            return {"shape": {"site": "websocket-echo", "scenario": scen},
+                    "input": {"subprotocol": proto, "scenario": scen, "steps": steps, "S_len": len(sid), "S_hex": hs[:600], "S": sid.decode("utf-8", "replace")[:200], "desc": r[7]},
+                    "observed": {"frames": r[2][:600], "closed": r[3], "close_reason": unhex(r[4])[:200], "recovers": r[5], "panic": unhex(r[6])},
+                    "replay": "websocket %s: %s with S = %d bytes (%s) -> %s, frames %s" % (proto, steps, len(sid), r[7], r[3], r[2][:200])}
+        if k == "cf":
+            return {"shape": {"site": "gorilla-close-frame"}, "input": {"reason_len": r[1]}, "observed": r[2],
+                    "replay": "gorilla/websocket close frame with a reason of %s bytes -> %s" % (r[1], r[2])}
         return {"shape": {"site": "websocket", "class": r[1].split(" ")[2]},
                 "input": {"subprotocol": r[1].split(" ")[0], "phase": r[1].split(" ")[1], "frame_type": r[2], "frame": unhex(r[7])[:300]},
                 "observed": {"frames": r[3], "closed": r[4], "recovers": r[5], "panic": unhex(r[6])},
@@ -220,7 +317,7 @@ def run(ctx):
 
     reported = Counter()
     for r, w in spec_fail:
-        key = (r[0], r[1].split(" ")[0] if r[0] in ("tr", "ws") else "", w[:40])
+        key = (r[0], r[1].split(" ")[0] if r[0] in ("tr", "ws", "wl") else "", w[:40])
         reported[key] += 1
         if reported[key] > 2:
             continue
@@ -243,7 +340,7 @@ def run(ctx):
     if ok_extract and not proved:
         if not spec_fail:
             ctx.violation({"kind": "proof", "failing": ctx.proof_failure,
-                           "replay": "theorems of GqlgenVerif.Props.C10 no longer check against the regenerated Gen/AddUploadGuards.lean / Gen/DecodeSites.lean; the directed and seeded search found no failing input"},
+                           "replay": "theorems of GqlgenVerif.Props.C10 / C10Close no longer check against the regenerated Gen/AddUploadGuards.lean / Gen/DecodeSites.lean / Gen/WsCloseReasons.lean; the directed and seeded search found no failing input"},
                           no_failing_input=True)
     if ok_extract and proved and model is None:
         ctx.violation({"kind": "check-error", "what": "lean driver failed", "detail": ctx.cov.get("driver_failure")}, no_failing_input=True)
@@ -257,13 +354,13 @@ def run(ctx):
     ctx.cov.update({
         "evaluations": len(rows),
         "distinct_nontrivial": len(nontriv),
-        "rule": "au: variable trees (depth<=3) x 1-3 map paths, mostly an existing position then structurally mutated (wrong container kind, out-of-range/negative/huge index, sign and zero spellings, missing variables, dropped prefix) + 60 directed; mp: multipart requests from random trees with prefix-independent paths, mutated (paths, part order/names/duplicates, operations/map JSON shapes, MIME truncation at every 5th offset), MaxUploadSize swept over every byte offset of a body x declared/chunked x MaxMemory in {default,1,-5}, missing TMPDIR; tr: 7 HTTP transports x (valid + directed + mutated + random byte bodies); ws: 2 subprotocols x every message type x 16 payloads, id shapes, raw text/binary frames before and after init. Non-trivial = distinct case leaving the happy path (error/close outcome, several paths, spill, null/err envelope)",
+        "rule": "au: variable trees (depth<=3) x 1-3 map paths, mostly an existing position then structurally mutated (wrong container kind, out-of-range/negative/huge index, sign and zero spellings, missing variables, dropped prefix) + 60 directed; mp: multipart requests from random trees with prefix-independent paths, mutated (paths, part order/names/duplicates, operations/map JSON shapes, MIME truncation at every 5th offset), MaxUploadSize swept over every byte offset of a body x declared/chunked x MaxMemory in {default,1,-5}, missing TMPDIR; tr: 7 HTTP transports x (valid + directed + mutated + random byte bodies); ws: 2 subprotocols x every message type x 16 payloads, id shapes, raw text/binary frames before and after init; wl: 2 subprotocols x multi-step sequences (duplicate id on an active subscription, query/stop/reuse, unknown field, ping payload, message type) x client string S of every boundary length (0..2, 88..100, 107..109, 120..130, 200..70000 bytes), a 2/3/4-byte rune at every alignment around reason bytes 121..127, multi-byte-only strings, invalid UTF-8, random rune mixtures + corpus/C10/wl.txt; cf: gorilla's control-frame rule for reasons of 0..200 bytes. Non-trivial = distinct case leaving the happy path (error/close outcome, several paths, spill, null/err envelope)",
         "input_distribution": dict(branch),
         "kinds": dict(kinds),
         "correspondence_divergences": len(div),
         "spec_failures": len(spec_fail),
         "samples": [pick("au", lambda r: r[2].startswith("err")), pick("au", lambda r: r[2].startswith("ok") and ";" in r[1]),
                     pick("mp", lambda r: r[3] == "exec" and r[8] != "-"), pick("mp", lambda r: r[3] == "copy-temp"),
-                    pick("tr", lambda r: " null" in r[1]), pick("ws", lambda r: r[1].endswith(" null"))],
+                    pick("tr", lambda r: " null" in r[1]), pick("ws", lambda r: r[1].endswith(" null")), pick("wl", lambda r: " dup " in r[1] and len(r[1]) > 300)],
         "sampled_not_proved": ["HTTP/websocket framing of the answers (well-formed JSON / SSE / multipart-mixed / ws frames)", "exact bytes, filename, content type per mapped path and independent seeks (observed in user code on every successful upload)", "every non-subscribe websocket frame"],
     })
